@@ -730,13 +730,17 @@ pub fn judge_c20(info: &Info, log: &RunLog, rep: &mut Report) {
                 };
                 figures += 1;
                 rep.count(&format!("c20_sender_figures:{}", what));
+                // Indications reach the user through a spawned task and may lag the emissions of the
+                // same instant. Lower bound: everything handed to the link at a strictly earlier
+                // instant has been counted. Upper bound: everything logged before the indication,
+                // plus up to two tiles already read but not yet handed to the link.
+                let lo = fd.iter().filter(|x| x.1 < r.t_us).map(|x| x.2).max().unwrap_or(0);
                 let m = fd.iter().filter(|x| x.0 < i).map(|x| x.2).max().unwrap_or(0);
-                // up to two tiles may have been read but not yet handed to the link
-                let t1 = (m + seg as u64).min(size as u64);
-                let t2 = (m + 2 * seg as u64).min(size as u64);
-                if !(prog == m || prog == t1 || prog == t2) {
-                    let rel = if prog > t2 { "over" } else { "under-or-off-tile" };
-                    rep.violate("sender-progress-wrong", format!("where={} {} cfg={}", what, rel, info.knobs[0].shape()), &info.case, w(&format!("sender reported progress {} in {} but the highest offset transmitted is {} (in-flight candidates {} / {})", prog, what, m, t1, t2)));
+                let hi = (m + 2 * seg as u64).min(size as u64);
+                let aligned = prog % seg as u64 == 0 || prog == size as u64;
+                if !(prog >= lo && prog <= hi && aligned) {
+                    let rel = if prog > hi { "over" } else if prog < lo { "under" } else { "off-tile" };
+                    rep.violate("sender-progress-wrong", format!("where={} {} cfg={}", what, rel, info.knobs[0].shape()), &info.case, w(&format!("sender reported progress {} in {} but the highest offset transmitted lies in [{}, {}] (tile {})", prog, what, lo, hi, seg)));
                 }
                 if prog > size as u64 {
                     rep.violate("progress-exceeds-size", format!("role=sender where={}", what), &info.case, w(&format!("sender progress {} > file size {}", prog, size)));
@@ -763,7 +767,7 @@ pub fn run_c20(tier: &str, seed: u64, replay: Option<&str>) -> (Meta, Report) {
         level: "exploration",
         rule: "seeded scenarios in three families, all paced, acknowledged mode, random knobs / sizes around segment boundaries / up to 2 random faults (loss, duplication, delay => retransmissions and duplicates): prompt = 1-4 Prompt(KeepAlive) requests at random emission/arrival indices; susp = Suspend+Resume at a random index at either entity (Resumed indication carries progress) plus optional prompt; fault = link cut at a random index with small limits and random fault handlers (Fault / Abandon indications carry progress). distinct_nontrivial = distinct (config, size, event-order) signatures among runs in which at least one progress figure was reported and checked.".into(),
         exhaustive: false,
-        assumptions: vec!["receiver figure must equal the number of distinct file bytes delivered at one of the points of the same virtual instant; sender figure must equal the highest offset handed to the link or that plus one or two tiles already read".into()],
+        assumptions: vec!["receiver figure must equal the number of distinct file bytes delivered at one of the points of the same virtual instant; sender figure must be a tile boundary between the highest offset handed to the link at earlier instants and the highest offset logged before the indication plus two tiles already read".into()],
         require: vec![("c20_receiver_figures:KeepAlive".into(), 300), ("c20_receiver_figures:Fault".into(), 100), ("c20_receiver_figures:Resumed".into(), 100), ("c20_sender_figures:Fault".into(), 100), ("c20_sender_figures:Resumed".into(), 100)],
         extra: vec![],
     };
